@@ -6,7 +6,11 @@ For random real parameter points above all thresholds and away from the poles it
   * the library's T-matrix  formulate(n, n_R, parametrize=False)  at (K, rho) and compares it with
     numpy's  K (1-iK)^-1  /  sqrt(rho)^* Khat (1 - i rho Khat)^-1 sqrt(rho),
   * || S^dagger S - 1 ||, || T - T^T ||  for S = 1 + 2iT,
-  * formulate(..., parametrize=True) (the substituted result) against the two-stage evaluation.
+  * formulate(..., parametrize=True) (the substituted result) against the two-stage evaluation, and its unitarity,
+  * configurations with a pole BELOW a channel threshold: PhaseSpaceFactorAbs with L = 0 must stay unitary;
+    PhaseSpaceFactor / PhaseSpaceFactorComplex are not (imaginary rho(m_R^2) in the width normalisation):
+    reported under the single signature kmatrix_subthreshold_pole_not_unitary, and only if T is symmetric, all
+    differential checks pass and the same configuration with the poles moved above threshold is unitary.
 
 usage: search_C09.py <seed> <n> | --replay <file>
 """
@@ -119,7 +123,8 @@ def k_oracle(c):
     return out
 
 
-def run_case(c):
+def checks(c):
+    """All raw checks on one configuration; list of (signature, what)."""
     n = c["n"]
     sub = values(c)
     fails = []
@@ -130,9 +135,10 @@ def run_case(c):
     if np.abs(K - Ko).max() > 1e-9 * kmax:
         fails.append(("k_param_mismatch/" + c["kind"],
                       f"parametrization(i,j) differs from sum_R g_i g_j/(m_R^2-s): max diff {np.abs(K - Ko).max():.3e}"))
-    if np.abs(K.imag).max() > 1e-9 * kmax or np.abs(K - K.T).max() > 1e-9 * kmax:
-        fails.append(("k_not_real_symmetric/" + c["kind"],
-                      f"K from parametrization not real symmetric: im {np.abs(K.imag).max():.3e} asym {np.abs(K - K.T).max():.3e}"))
+    if np.abs(K.imag).max() > 1e-9 * kmax:
+        fails.append(("k_not_real/" + c["kind"], f"K from parametrization not real: max |Im K| = {np.abs(K.imag).max():.3e}"))
+    if np.abs(K - K.T).max() > 1e-9 * kmax:
+        fails.append(("k_not_symmetric/" + c["kind"], f"K from parametrization not symmetric: {np.abs(K - K.T).max():.3e}"))
     eye = np.eye(n)
     if c["kind"] == "nr":
         rho = np.ones(n, dtype=complex)
@@ -170,20 +176,86 @@ def run_case(c):
             kw = dict(phsp_factor=PHSP[c["phsp"]], angular_momentum=c["L"], meson_radius=sp.Float(c["d"], 30))
             fulls = [(RelativisticKMatrix.formulate(n, c["npoles"], **kw), T),
                      (RelativisticKMatrix.formulate(n, c["npoles"], return_t_hat=True, **kw), That)]
-        for full, ref in fulls:
+        for k, (full, ref) in enumerate(fulls):
+            vals = np.zeros((n, n), dtype=complex)
             for i in range(n):
                 for j in range(n):
-                    v = num(expand_sums(full[i, j]).xreplace(sub))
+                    v = vals[i, j] = num(expand_sums(full[i, j]).xreplace(sub))
                     if abs(v - ref[i, j]) > tol:
                         fails.append(("formulate_parametrized_differs/" + c["kind"],
-                                      f"formulate(parametrize=True)[{i},{j}] = {v} but T(K=parametrization, rho=phsp) = {ref[i, j]}"))
+                                      f"formulate(parametrize=True, phsp_factor={c['phsp']}, L={c['L']})[{i},{j}] = {v} but "
+                                      f"T(K=parametrization with the caller's arguments, rho=phsp) = {ref[i, j]}"))
+            if k == 0:
+                Sf = eye + 2j * vals
+                uf = np.abs(Sf.conj().T @ Sf - eye).max()
+                if uf > tol:
+                    fails.append(("not_unitary_formulate/" + c["kind"],
+                                  f"formulate(parametrize=True, phsp_factor={c['phsp']}, L={c['L']}): |S^dagger S - 1| = {uf:.3e}"))
     return fails
+
+
+KNOWN = "kmatrix_subthreshold_pole_not_unitary"
+EXPECTED_BELOW = ("k_not_real/rel", "not_unitary/rel", "not_unitary_formulate/rel")
+
+
+def run_case(c):
+    """Checks + classification of the sub-threshold-pole finding.
+
+    With PhaseSpaceFactor / PhaseSpaceFactorComplex and a pole below a channel threshold the width is
+    normalised with an imaginary rho(m_R^2): K is complex and S not unitary (known finding).  It is
+    reported under KNOWN only if nothing else is wrong (T symmetric, every differential check passes)
+    and the same configuration with all poles moved above threshold passes every check.
+    PhaseSpaceFactorAbs (L = 0) with sub-threshold poles gets the normal checks: it must be unitary."""
+    fails = checks(c)
+    if not (c.get("subthr") and c["kind"] == "rel" and c["phsp"] in ("PhaseSpaceFactor", "PhaseSpaceFactorComplex")):
+        return fails
+    expected = [f for f in fails if f[0] in EXPECTED_BELOW]
+    other = [f for f in fails if f[0] not in EXPECTED_BELOW]
+    nonunitary = [f for f in expected if f[0].startswith("not_unitary")]
+    if not nonunitary:
+        return other
+    sibling = dict(c, m=c["m_above"], subthr=False, full=False)
+    sib = [("above_threshold_sibling:" + sig, what) for sig, what in checks(sibling)]
+    if other or sib:
+        return other + sib
+    below = [x for x in c["m"] if any(x < a + b for a, b in zip(c["ma"], c["mb"]))]
+    return [(KNOWN, f"RelativisticKMatrix, {c['phsp']}, L={c['L']}, n_channels={c['n']}, masses "
+                    f"{list(zip(c['ma'], c['mb']))}, poles m={c['m']} ({len(below)} below a threshold), s={c['s']}: "
+                    f"{nonunitary[0][1]}; T symmetric; with the poles moved to {c['m_above']} (all above threshold) unitary")]
 
 
 def gen_cases(seed: int, n: int):
     rng = random.Random(seed * 7919 + 9)
     out = []
     thorough = n > 60
+    n_abs, n_psf = (40, 30) if thorough else (6, 4)
+    for i in range(n_abs + n_psf):
+        absv = i < n_abs
+        nch = rng.choice([2, 2, 3]) if thorough else 2
+        npoles = rng.choice([1, 2, 3] if thorough else [1, 2])
+        ma = [round(rng.uniform(0.1, 0.25), 6), round(rng.uniform(0.45, 0.6), 6)]
+        mb = [round(rng.uniform(0.1, 0.25), 6), round(rng.uniform(0.45, 0.6), 6)]
+        if nch == 3:
+            ma.append(round(rng.uniform(0.1, 0.6), 6))
+            mb.append(round(rng.uniform(0.1, 0.6), 6))
+        thr = max(a + b for a, b in zip(ma, mb))
+        lo, hi = (ma[0] + mb[0]) * 1.15, (ma[1] + mb[1]) * 0.9
+        nbelow = 1 if npoles == 1 or rng.random() < 0.7 else 2
+        while True:
+            m = [round(rng.uniform(lo, hi), 6) for _ in range(nbelow)]
+            m += [round(thr * 1.08 + rng.uniform(0.05, 1.6), 6) for _ in range(npoles - nbelow)]
+            m_above = [round(thr * 1.08 + rng.uniform(0.05, 1.6), 6) for _ in range(nbelow)] + m[nbelow:]
+            s = round((thr * 1.05 + rng.uniform(0.02, 1.8)) ** 2, 6)
+            if all(abs(s - x * x) > 0.12 for x in m + m_above):
+                break
+        out.append({"kind": "rel", "n": nch, "npoles": npoles, "subthr": True,
+                    "L": 0 if absv else rng.choice([0, 1, 2, 3, 4]),
+                    "phsp": "PhaseSpaceFactorAbs" if absv else rng.choice(["PhaseSpaceFactor", "PhaseSpaceFactorComplex"]),
+                    "d": round(rng.uniform(0.5, 3.0), 6), "s": s, "m": m, "m_above": m_above, "ma": ma, "mb": mb,
+                    "Gamma": [[round(rng.uniform(0.05, 0.6), 6) for _ in range(nch)] for _ in range(npoles)],
+                    "gamma": [[round(rng.uniform(0.3, 1.5) * rng.choice([1, 1, -1]), 6) for _ in range(nch)]
+                              for _ in range(npoles)],
+                    "full": nch <= 2 and npoles <= 2 and (absv or i % 2 == 0)})
     for i in range(n):
         kind = "nr" if i % 3 == 0 else "rel"
         nch = rng.choice([1, 2, 2, 3, 3] if thorough else [1, 2, 2])
@@ -213,7 +285,10 @@ def main():
             fails = run_case(doc["replay"]["case"])
         except Exception as exc:  # noqa: BLE001
             fails = [("exception_" + type(exc).__name__, f"{type(exc).__name__}: {exc}"[:300])]
-        print(json.dumps({"still_fails": bool(fails), "fails": fails[:5]}))
+        want = doc.get("signature")
+        mine = [f for f in fails if f[0] == want] if want and not want.startswith("unproved") else \
+               [f for f in fails if f[0] != KNOWN]
+        print(json.dumps({"still_fails": bool(mine), "fails": mine[:5]}))
         return
     seed, n = int(sys.argv[1]), int(sys.argv[2])
     cases = gen_cases(seed, n)
@@ -225,7 +300,7 @@ def main():
             fails = [("exception_" + type(exc).__name__ + "/" + c["kind"], f"{type(exc).__name__}: {exc}"[:300])]
         nev += 1
         distinct.add(json.dumps(c, sort_keys=True))
-        tag = f"{c['kind']}/n{c['n']}/{c['phsp']}"
+        tag = f"{c['kind']}/n{c['n']}/{c['phsp']}" + ("/pole-below-threshold" if c.get("subthr") else "")
         kinds[tag] = kinds.get(tag, 0) + 1
         if len(samples) < 3 and c["kind"] not in [s_["kind"] for s_ in samples]:
             samples.append({k: c[k] for k in ("kind", "n", "npoles", "L", "phsp", "s", "m")})
